@@ -215,9 +215,10 @@ def run_shard(spec, res):
                             len(data), enc, filler, pad, st['emitted'][:4], nrec[0], st['error'], nrec[1], bk['error']), {'pad': pad, 'filler': filler, 'encoding': enc}, finding=None)
             # many short records: one 64 KiB chunk carries thousands of them (the reader's internal record queue grows in bursts); real file stream,
             # one single chunk, 64 KiB chunks offered synchronously, small chunks offered one per event-loop turn
-            for nrec in ((5000, 9000) if tier == 'quick' else (4097, 5000, 9000, 20000, 40000)):
-                for shape in ('short', 'mixed'):
-                    lines = ['%d,%s' % (i, 'x' if shape == 'short' or i % 50 else '"multi\nline %d"' % i) for i in range(nrec)]
+            for nrec in ((5000, 9000, 70000) if tier == 'quick' else (4097, 5000, 9000, 20000, 40000, 70000, 150000)):
+                for shape in (('short', 'mixed') if nrec < 70000 else ('tiny',)):
+                    # tiny: two or three bytes per line - more than 20000 records per 64 KiB chunk, several chunks: the consumer runs far ahead of the producer
+                    lines = ['%d,%s' % (i, 'x' if shape == 'short' or i % 50 else '"multi\nline %d"' % i) for i in range(nrec)] if shape != 'tiny' else [str(i % 97) for i in range(nrec)]
                     text = rng.choice(['\n', '\r\n']).join(lines) + '\n'
                     data = text.encode('utf-8')
                     out = node.call({'op': 'read_file_stream', 'bytes_hex': data.hex(), 'encoding': 'utf-8', 'delim': ',', 'policy': 'quoted_rfc'})
@@ -271,7 +272,7 @@ def run_shard(spec, res):
 
 def summarize(tier, seed, m):
     return {
-        'rule': 'every input of 1..%d bytes over {a, quote, comma, LF, CR, #} x all 2^(n-1) chunkings x policies {simple, quoted, quoted_rfc} x comment prefix {none, #} (utf-8 and binary), header on for n <= 4; %d UTF-8 samples with 2-, 3-, 4-byte characters and a leading BOM cut at every byte (all chunkings for samples up to 14 bytes in the quick tier / 18 bytes in the thorough tier; for longer samples every 1- and 2-cut chunking (thorough: also 3-cut and 20000 random chunkings) and byte-by-byte delivery); truncated / invalid sequences (both modes must reject); two stream iterators alive at the same time (the first chunk of the first cut at every byte offset, the second read completely in between), each compared with the bulk reading of its own content; files around the 64 KiB default chunk size through fs.createReadStream; files of 5000-40000 short records (thousands per chunk: the record queue grows in bursts) through fs.createReadStream, as one chunk, as 64 KiB chunks and with odd first / last chunks, delivered synchronously and one chunk per event-loop turn; random longer inputs. distinct_nontrivial = (input, configuration) pairs containing a line break, a quote or a multi-byte character.' % (MAXLEN[tier], len(utf8_samples())),
+        'rule': 'every input of 1..%d bytes over {a, quote, comma, LF, CR, #} x all 2^(n-1) chunkings x policies {simple, quoted, quoted_rfc} x comment prefix {none, #} (utf-8 and binary), header on for n <= 4; %d UTF-8 samples with 2-, 3-, 4-byte characters and a leading BOM cut at every byte (all chunkings for samples up to 14 bytes in the quick tier / 18 bytes in the thorough tier; for longer samples every 1- and 2-cut chunking (thorough: also 3-cut and 20000 random chunkings) and byte-by-byte delivery); truncated / invalid sequences (both modes must reject); two stream iterators alive at the same time (the first chunk of the first cut at every byte offset, the second read completely in between), each compared with the bulk reading of its own content; files around the 64 KiB default chunk size through fs.createReadStream; files of 5000-150000 short records (down to two bytes per line: more than 20000 records per chunk) (thousands per chunk: the record queue grows in bursts) through fs.createReadStream, as one chunk, as 64 KiB chunks and with odd first / last chunks, delivered synchronously and one chunk per event-loop turn; random longer inputs. distinct_nontrivial = (input, configuration) pairs containing a line break, a quote or a multi-byte character.' % (MAXLEN[tier], len(utf8_samples())),
         'exhaustive': True,
         'required': ['many_record_runs', 'overlap_runs', 'stream_runs', 'bulk_runs', 'utf8_sample_runs', 'bigfile_runs', 'faithful_delivery_traces'],
         'assumptions': ['the bulk reader is the reference for what the file contains (C18 ties it to the Python reader)',
